@@ -97,6 +97,9 @@ def tasks(tier, seed):
                     out.append({"fn": "cdm", "kwargs": {"direction": direction, "n": n, "species": k, "beta": beta},
                                 "label": f"cdm/{direction}/n={n},species={k},beta={beta}",
                                 "caps": {"max_seconds": 300 if tier == "quick" else 1200, "solver_timeout_ms": 20000, "max_paths": 6000}})
+    for how in ("clusters", "array", "array+clusters"):
+        for n in (2, 3):
+            out.append({"fn": "collection_steps", "kwargs": {"how": how, "nsteps": n}, "label": f"collection_steps/{how},n={n}"})
     for direction in ("parallel", "serial"):
         for pi, pv in enumerate(PARAMS_CDM):
             out.append({"fn": "cdm_state", "kwargs": {"direction": direction, "species": len(pv[4]), "beta": 1.0, "params": pi}, "label": f"cdm_state/{direction}/params={pi}",
@@ -133,6 +136,61 @@ def collection():
         out = det.pixel.array
     vx.prove("C15/collection/adds_exactly", vx.all_of([o == a + b for o, a, b in zip(out.elems(), pix.elems(), chg.elems())]))
     vx.observe("out", out.elems())
+
+
+def _add_clusters(det, xp, numbers):
+    """Clusters in the middle of pixels (0, 0), (0, 1), ... (pixel pitch 10 um) through the particle interface."""
+    k = len(numbers)
+    z = xp.zeros(k)
+    mk = (lambda v: xp.asarray(list(v))) if xp is symnp else (lambda v: np.array(list(v), dtype=float))
+    det.charge.add_charge(particle_type="e", particles_per_cluster=mk(numbers), init_energy=z, init_ver_position=mk([5.0] * k), init_hor_position=mk([5.0 + 10.0 * i for i in range(k)]),
+                          init_z_position=z, init_ver_velocity=z, init_hor_velocity=z, init_z_velocity=z)
+
+
+def _collect_steps(det, xp, coll, steps, how):
+    """`steps` readout steps on one detector: reset, generate (clusters / array / both), collect.  Returns the pixel after each step."""
+    out = []
+    for gen in steps:
+        det.empty(True)
+        if how in ("array", "array+clusters"):
+            det.charge.add_charge_array(gen["array"].copy())
+        if how in ("clusters", "array+clusters"):
+            _add_clusters(det, xp, gen["clusters"])
+        coll(det)
+        out.append(det.pixel.array.copy())
+    return out
+
+
+STEP_SHAPE = (1, 2)
+
+
+def collection_steps(how, nsteps):
+    """Repeated steps on the same detector: each step's collection adds exactly what that step generated, whatever an earlier
+    step generated (same number of clusters in every step, so that nothing distinguishes the steps but the values)."""
+    m = importlib.import_module("pyxel.models.charge_collection.collection")
+    steps = []
+    for i in range(nsteps):
+        arr = sym_array(f"g{i}_arr", STEP_SHAPE)
+        _nonneg(arr, "generated charge is non-negative")
+        cl = [vx.real(f"g{i}_cl{j}") for j in range(2)]
+        for c in cl:
+            vx.assume(c >= 0, "generated charge is non-negative")
+        steps.append({"array": arr, "clusters": cl})
+    with Patch() as p:
+        p.numpy("pyxel.models.charge_collection.collection", "pyxel.detectors.geometry", *DATA_MODULES)
+        p.attr("numba", "njit", lambda f=None, **kw: f if f is not None else (lambda g: g), "identity (cluster binning)")
+        det = make_ccd(*STEP_SHAPE)
+        outs = _collect_steps(det, symnp, m.simple_collection, steps, how)
+    ok = []
+    for gen, o in zip(steps, outs):
+        want = [0] * (STEP_SHAPE[0] * STEP_SHAPE[1])
+        if "array" in how:
+            want = [w + a for w, a in zip(want, gen["array"].elems())]
+        if "clusters" in how:
+            for j, c in enumerate(gen["clusters"]):
+                want[j] = want[j] + c
+        ok += [a == b for a, b in zip(o.elems(), want)]
+    vx.prove(f"C15/collection/steps_add_exactly/{how},n={nsteps}", vx.all_of(ok))
 
 
 def fidelity_collection(kwargs, w):
@@ -531,6 +589,25 @@ def replay(oid, kwargs, model, data):
         except ValueError:
             return False, {"rejected": True}
         return (abs(k.sum() - 1) > 1e-12 or k[1, 1] < 0), {"kernel": k.tolist()}
+    if fn == "collection_steps":
+        from pyxel.models.charge_collection import simple_collection
+
+        how, n = kwargs["how"], kwargs["nsteps"]
+        steps = [{"array": np.array([g(f"g{i}_arr_{k}") for k in range(STEP_SHAPE[0] * STEP_SHAPE[1])]).reshape(STEP_SHAPE), "clusters": [g(f"g{i}_cl{j}") for j in range(2)]} for i in range(n)]
+        if all(sum(st["clusters"]) == 0 and st["array"].sum() == 0 for st in steps):
+            steps = [{"array": np.full(STEP_SHAPE, 1.0 + i), "clusters": [10.0 + i, 20.0 + i]} for i in range(n)]
+        outs = _collect_steps(make_ccd(*STEP_SHAPE), np, simple_collection, steps, how)
+        bad = {}
+        for i, (gen, o) in enumerate(zip(steps, outs)):
+            want = np.zeros(STEP_SHAPE)
+            if "array" in how:
+                want = want + gen["array"]
+            if "clusters" in how:
+                for j, c in enumerate(gen["clusters"]):
+                    want[0, j] += c
+            if not np.allclose(o, want):
+                bad[f"step{i}"] = {"collected": o.tolist(), "generated": want.tolist()}
+        return bool(bad), bad
     if fn == "cdm_state":
         cm = importlib.import_module(CDM)
         species, direction = kwargs["species"], kwargs["direction"]
